@@ -18,9 +18,10 @@ ENGINE = {'name': 'socks5',
          'client, seven kinds of wrong sub-negotiation (wrong password, unknown user, empty user, empty password, the raw placeholder text, wrong '
          'sub-negotiation version, 255-byte names), clients offering only/also the other method; (2) for four configurations every command code '
          '(sampled in quick, all 256 in thorough), every address form (IPv4, IPv6, domain, empty domain, IP literal as domain, unresolvable '
-         'domain, three unassigned types, 0.0.0.0:0), a closed port, ten method lists, request version 4; (3) random scripts truncated at every '
+         'domain, three unassigned types, the unspecified address as 0.0.0.0, ::, ::ffff:0.0.0.0 and as the names "0.0.0.0" / "::", the IPv4-mapped '
+         'loopback, "localhost" with port 0), a closed port, ten method lists, request version 4; (3) random scripts truncated at every '
          'byte position or with one bit flipped before the address type. The script is served in one piece, byte by byte or in random pieces, '
-         'then EOF. After a successful UDP ASSOCIATE that announced a literal loopback or unspecified address, three datagrams are sent to the '
+         'then EOF. Every configuration also gets UDP ASSOCIATE announcing 0.0.0.0:0, [::]:0 and the name "0.0.0.0". After a successful UDP ASSOCIATE that announced a loopback or unspecified address (literal of either family, IPv4-mapped, or through a name), three datagrams are sent to the '
          'relay port (from another address of this machine standing for a third party, from the client address with an arbitrary port, and '
          'last a sentinel from exactly the announced address) and a loopback UDP recorder tells which were forwarded. Scripts whose request would make the library contact anything but the loopback targets are not run. non-trivial = the client '
          'got past method negotiation (server wrote more than a bare refusal); distinct = distinct (configuration, script, observation) terms',
